@@ -48,6 +48,65 @@ def edits(rng, l):
     return out
 
 
+def node_level(ck, tier):
+    """the commitment where it is enforced: whatever path a block takes into a node (relayed, reply during a bulk download,
+    at a checkpointed height with the checkpointed header), the transactions it is stored with are the ones its header
+    commits to"""
+    import chaingen
+    import nodeharness
+    import simnet
+    from skepticoin.datatypes import Block
+    from skepticoin.humans import human
+    from skepticoin import merkletree as MT
+    from skepticoin.networking import messages as M
+    rng = ck.rng
+    keys = chaingen.Keys()
+    with chaingen.Env(period=50) as env0:
+        tg = chaingen.TreeGen(env0, keys, rng)
+        n = tg.genesis
+        for _ in range(5):
+            n = tg.extend(n, dt=100)
+        main = list(tg.nodes)
+    k = 4                                           # main[4] is a checkpointed height in the second half of the probe
+    for horizon in (False, True):
+        envkw = dict(period=50)
+        if horizon:
+            envkw.update(hz=k, known={0: human(main[0].id), k: human(main[k].id)})
+        with chaingen.Env(**envkw) as env:
+            with simnet.Net(seed=rng.getrandbits(30), t0=main[-1].view.time + 5000) as net:
+                have = main[:k]
+                sn = nodeharness.SingleNode(net, chaingen.impl_state_from(have), [m.block for m in have[1:]], npeers=2)
+                sn.new_messages()
+                target = main[k]
+                extra = chaingen.coinbase(target.height, 1, keys.pks[2], b'extra')
+                other_cb = chaingen.coinbase(target.height, env.subsidy(target.height), keys.pks[3], b'other')
+                genuine = list(target.block.transactions)
+                variants = [('transaction-appended', genuine + [extra]), ('reward-substituted', [other_cb] + genuine[1:]),
+                            ('last-transaction-duplicated', genuine + [genuine[-1]])]
+                for irt in (0, 71):
+                    for name, txs in variants:
+                        fake = Block(target.block.header, txs)
+                        before = sn.observe()
+                        sn.deliver(rng.randrange(2), M.DataMessage(M.DATA_BLOCK, fake), irt=irt)
+                        cs = sn.lp().chain_manager.coinstate
+                        ck.case(('node', horizon, irt, name), kind='node-level/%s%s/%s' % ('reply' if irt else 'relayed', '-at-checkpoint' if horizon else '', name))
+                        stored = cs.block_by_hash.get(target.id)
+                        if stored is not None:
+                            ids = [spec.sha256d(t.serialize()) for t in stored.transactions]
+                            if MT.get_merkle_root(ids) != bytes(stored.header.summary.merkle_root_hash):
+                                ck.violation('stored-block-breaks-commitment', 'a block delivered as a %s%s with its genuine header and an '
+                                             'altered transaction list (%s) is part of the chain state: its transactions do not hash to '
+                                             'the commitment in its header' % ('reply during a bulk download' if irt else 'relayed block',
+                                                                                ' at a checkpointed height' if horizon else '', name),
+                                             {'node_level': True, 'checkpointed': horizon, 'in_response_to': irt, 'variant': name,
+                                              'block': fake.serialize().hex()})
+                                return
+                        if sn.node.escaped:
+                            ck.violation('exception-escaped', 'an exception escaped the event handler: %s' % sn.node.escaped[0][1],
+                                         {'node_level': True})
+                            return
+
+
 def run(tier, seed):
     ck = common.Check('C17', tier, seed)
     ck.rule = ('lists of 32-byte ids of every length 1..33 (thorough: ..80), random and with repeated entries (equal '
@@ -191,6 +250,13 @@ def run(tier, seed):
     except Exception as e:
         import traceback
         ck.disagree('calc_merkle_root_hash sequence probe raised %r' % (e,), {'trace': traceback.format_exc()[-600:]})
+    try:
+        node_level(ck, tier)
+    except Exception:
+        import traceback
+        tb = traceback.format_exc()
+        if 'could not mine a block' not in tb:
+            ck.disagree('node-level commitment probe crashed: %s' % tb[-500:], {})
     if r.ok:
         outs = model.run_batch(reqs)
         for (what, l, i, want), got in zip(expect, outs):
